@@ -351,7 +351,19 @@ fn check_missing_timestamp(ctx: &mut Ctx) {
             .duration_since(std::time::UNIX_EPOCH)
             .unwrap()
             .as_millis();
-        let dec = format_once(&mut emf, &entry, &Sampling::None, &mut out);
+        let dec = match no_panic("emf-format", || format_once(&mut emf, &entry, &Sampling::None, &mut out)) {
+            Ok(d) => d,
+            Err(f) => {
+                ctx.report_violation(
+                    "emf-missing-timestamp",
+                    f,
+                    serde_json::json!({"cfg": cfg, "entry": entry}),
+                    format!("{:?} {:?}", cfg, entry),
+                );
+                ctx.push_custom(t.finish(&[]));
+                return;
+            }
+        };
         let after = std::time::SystemTime::now()
             .duration_since(std::time::UNIX_EPOCH)
             .unwrap()
